@@ -129,6 +129,7 @@ typedef struct {
 
 LongInt    MomLocHandle; /* Merker, den lokale Symbole erhalten        */
 LongInt    FwdSymCounter, BackSymCounter;
+static LongInt TmpSymCounter; /* number of non-temporary symbol definitions so far */
 String     TmpSymCounterVal; /* representation as string                   */
 TTmpSymLog TmpSymLog[LOCSYMSIGHT];
 LongInt    TmpSymLogDepth;
@@ -553,6 +554,7 @@ Boolean ExpandStrSymbol(char* pDest, size_t DestSize, tStrComp const* pSrc) {
 
 void InitTmpSymbols(void) {
     FwdSymCounter = BackSymCounter = 0;
+    TmpSymCounter                  = 0;
     *TmpSymCounterVal              = '\0';
     TmpSymLogDepth                 = 0;
     *LastGlobSymbol                = '\0';
@@ -595,8 +597,15 @@ static Boolean ChkTmp1(char* Name) {
             SHA1_CTX sha;
             Byte     results[20];
 
+            char     Num[32];
+
+            /* every definition of a non-temporary symbol opens a new name
+               space, also one that re-defines the previous symbol */
+
+            as_snprintf(Num, sizeof(Num), ":%ld", (long)TmpSymCounter);
             SHA1Init(&sha);
             SHA1Update(&sha, (unsigned char*)LastGlobSymbol, strlen(LastGlobSymbol));
+            SHA1Update(&sha, (unsigned char*)Num, strlen(Num));
             SHA1Final(results, &sha);
             SHA1ToHexString(results, TmpSymCounterVal);
         }
@@ -704,6 +713,7 @@ static Boolean ChkTmp3(char* Name, as_symbol_source_t symbol_source) {
     if (symbol_source != e_symbol_source_none) {
         strmaxcpy(LastGlobSymbol, Name, STRINGSIZE);
         *TmpSymCounterVal = '\0';
+        TmpSymCounter++;
     }
     return False;
 }
